@@ -462,6 +462,10 @@ def _sample(space, rng):
         x = lo + (hi - lo) * rng.random(space.shape)
         edge = rng.random(space.shape)
         x = np.where(edge < 0.12, lo, np.where(edge < 0.24, hi, x))
+        if len(space.shape) == 3 and rng.random() < 0.3:
+            # a dark / binary frame: every pixel within one unit of the lower bound (raw values that happen to lie in [0, 1]
+            # when the space starts at 0) - it is scaled like any other frame
+            x = lo + np.minimum(hi - lo, 1.0) * (rng.random(space.shape) < 0.5)
         if np.issubdtype(space.dtype, np.integer):
             x = np.rint(x)
         return np.asarray(x).astype(space.dtype).reshape(space.shape)
